@@ -19,7 +19,8 @@
 (* application (05-port routes every port that contains a route name),     *)
 (* "nowhere" is valid but not routed.  The application answers             *)
 (* OnChanOpenInit with the proposed version ("mock-version" for a blank    *)
-(* one) and OnChanOpenTry with the counterparty's version.                 *)
+(* one) and OnChanOpenTry with the counterparty's version, except that it  *)
+(* negotiates <x> (possibly empty) for a proposal "neg:<x>" (AppTryVersion).*)
 (*                                                                         *)
 (* Proofs.  hist[p] is the provable state a proof "at height p" shows =    *)
 (* the state after block p-1.  A proof verifies on c iff c's client is     *)
@@ -252,7 +253,11 @@ ChanTryGuard(S, c, a, t) ==
     /\ e.st = "OPEN"
     /\ G_SingleVersionSupportsOrder(e, a.ord)
     /\ G_ChanTryProven(S, c, e, a, t)
-ChanTryEnd(a) == ChanEnd(a.port, "TRYOPEN", a.ord, a.cpport, a.cpchan, a.hops, a.cpver)
+\* OnChanOpenTry of the application: channel versions are opaque strings to core, the application on the TRY side may
+\* answer the proposal with another version, also with the empty string.  The mock application of the harness echoes
+\* the proposal except for the proposals "neg:<x>", which it answers with <x>.
+AppTryVersion(v) == CASE v = "neg:" -> "" [] v = "neg:v3" -> "v3" [] OTHER -> v
+ChanTryEnd(a) == ChanEnd(a.port, "TRYOPEN", a.ord, a.cpport, a.cpchan, a.hops, AppTryVersion(a.cpver))
 DoChanOpenTry(S, c, a, t) ==
     IF ~ChanTryGuard(S, c, a, t) THEN RErr(S, c, t)
     ELSE LET cur == S.ch[c].cur IN
@@ -321,6 +326,30 @@ DoChanCloseConfirm(S, c, a, t) ==
          ROk(WithCur(S, c, t, [cur EXCEPT !.chans[a.chan] = [@ EXCEPT !.st = "CLOSED"]]))
 
 (***************************************************************************)
+(* Foreign counterparty.  C12 / C13 are promises of ONE ibc-go chain about  *)
+(* its own ends, whatever the chain on the other side stores (only its      *)
+(* light client is assumed honest: proofs show what that chain committed).  *)
+(* ForeignConn / ForeignChan are NOT transactions of ibc-go: chain c plays  *)
+(* a counterparty implementation that commits, in one block, another value  *)
+(* for one of its stored ends (a version it did not intersect, a state it   *)
+(* did not reach through the handshake, another ordering, ...).  The other  *)
+(* chain is then relayed genuine proofs of that end.                        *)
+(*   ForeignConn: a = [conn, e]   e = the connection end stored from now on *)
+(*   ForeignChan: a = [chan, e]   e = the channel end (same port = same key)*)
+(***************************************************************************)
+ForeignMsgs == {"ForeignConn", "ForeignChan"}
+NormConn(e) == ConnEnd(e.st, e.cl, e.cpcl, e.cpconn, e.pfx, e.vers, e.delay)
+NormChan(e) == ChanEnd(e.port, e.st, e.ord, e.cpport, e.cpchan, e.hops, e.ver)
+DoForeignConn(S, c, a, t) ==
+    LET cur == S.ch[c].cur IN
+    IF a.conn \notin DOMAIN cur.conns THEN RErr(S, c, t)
+    ELSE ROk(WithCur(S, c, t, [cur EXCEPT !.conns[a.conn] = NormConn(a.e)]))
+DoForeignChan(S, c, a, t) ==
+    LET cur == S.ch[c].cur IN
+    IF a.chan \notin DOMAIN cur.chans \/ ChanNo(cur, a.chan).port # a.e.port THEN RErr(S, c, t)
+    ELSE ROk(WithCur(S, c, t, [cur EXCEPT !.chans[a.chan] = NormChan(a.e)]))
+
+(***************************************************************************)
 (* Step: action record a = [a |-> name, c |-> chain, dt |-> 1.., ...]      *)
 (***************************************************************************)
 Step(S, a) ==
@@ -338,6 +367,8 @@ Step(S, a) ==
       [] a.a = "ChanOpenConfirm"  -> DoChanOpenConfirm(S, c, a, t)
       [] a.a = "ChanCloseInit"    -> DoChanCloseInit(S, c, a, t)
       [] a.a = "ChanCloseConfirm" -> DoChanCloseConfirm(S, c, a, t)
+      [] a.a = "ForeignConn"      -> DoForeignConn(S, c, a, t)
+      [] a.a = "ForeignChan"      -> DoForeignChan(S, c, a, t)
 
 ConnMsgs == {"ConnOpenInit", "ConnOpenTry", "ConnOpenAck", "ConnOpenConfirm"}
 ChanMsgs == {"ChanOpenInit", "ChanOpenTry", "ChanOpenAck", "ChanOpenConfirm", "ChanCloseInit", "ChanCloseConfirm"}
@@ -374,10 +405,11 @@ ConnAgree(S, c, n) ==
 I_ConnAgree(S) == \A c \in Chains : \A n \in DOMAIN Cur(S, c).conns : ConnAgree(S, c, n)
 
 \* every negotiated (TRYOPEN / OPEN) connection end carries exactly one version supported by this chain
-I_SingleNegotiatedVersion(S) ==
-    \A c \in Chains : \A n \in DOMAIN Cur(S, c).conns :
+SingleNegotiatedVersionOn(S, c) ==
+    \A n \in DOMAIN Cur(S, c).conns :
         LET e == Cur(S, c).conns[n] IN
         e.st \in {"TRYOPEN", "OPEN"} => Len(e.vers) = 1 /\ IsSupported(Compatible, e.vers[1])
+I_SingleNegotiatedVersion(S) == \A c \in Chains : SingleNegotiatedVersionOn(S, c)
 
 \* design-level strengthening: an OPEN end always has a peer that went at least through TRY and names it back
 I_OpenChanHasPeer(S) ==
